@@ -112,6 +112,24 @@ CLAIMS["C02"] = (
     "compared after whitespace normalisation (a reordering of min/max arguments is tolerated).",
     "DESIGN.md §2 C02")
 
+CLAIMS["C03"] = (
+    "order-domain abstract interpretation (partial-preorder facts, three-way fork-and-replay) of "
+    "_bounds.py and of the sweep's prologue + inductive step; effect / sibling / path rules",
+    "Abstract interpretation of the parsed source over the finite domain of weak orderings of the "
+    "symbolic inputs: clamp_to_bounds and adjust_exclusion_bounds are decided for every ordering "
+    "consistent with L <= U, el <= 0 <= eu (exhaustive); the _calc_target_power sweep is decided by "
+    "induction — the prologue establishes and one generic iteration with every proposal shape "
+    "preserves `system bounds contain running bounds and target; target zero or outside the zone` "
+    "— hence for any number of proposals. History-freedom (no instance state; recomputed whenever "
+    "a bucket exists), arrival-order independence (sorted by the proposals' own lexicographic "
+    "order; <, ==, hash on the same key), latest-per-actor replacement and expiry are "
+    "effect/sibling/path rules. Complete for comparison-only code: any weak ordering is realised "
+    "by reals.",
+    "Trusted: Quantity truthiness/isclose facts re-read from the installed source each run; the "
+    "interpreter's semantics of the Python subset (sa/engine/absint.py, order.py); quick tier uses "
+    "the structurally checked independence of target part and bounds part of an iteration.",
+    "DESIGN.md §2 C03")
+
 PENDING_REASON = ("no static check is registered for this property yet in this revision of the "
                   "machinery (planned rules are in DESIGN.md §2); nothing is claimed for it")
 
